@@ -302,6 +302,39 @@ func callbackBuiltUnderLock(p *Prog, pk *packagesPkg, fi *FuncInfo, lockF *types
 				}
 			}
 			if !isArg {
+				// … or kept in a local that is only ever handed to calls made under the lock
+				if as, isAs := stack[len(stack)-2].(*ast.AssignStmt); len(stack) >= 2 && isAs && len(as.Lhs) == 1 && len(as.Rhs) == 1 {
+					if lv, isVar := objOf(info, as.Lhs[0]).(*types.Var); isVar && !lv.IsField() {
+						okUses := locksHeldAtNode(p, g, cl)[lockF]
+						var st2 []ast.Node
+						ast.Inspect(g.Decl.Body, func(y ast.Node) bool {
+							if y == nil {
+								st2 = st2[:len(st2)-1]
+								return true
+							}
+							st2 = append(st2, y)
+							id, isID := y.(*ast.Ident)
+							if !isID || info.Uses[id] != types.Object(lv) {
+								return true
+							}
+							argOK := false
+							if len(st2) >= 2 {
+								if call, isCall := st2[len(st2)-2].(*ast.CallExpr); isCall {
+									for _, a := range call.Args {
+										if a == ast.Expr(id) {
+											argOK = locksHeldAtNode(p, g, call)[lockF]
+										}
+									}
+								}
+							}
+							okUses = okUses && argOK
+							return true
+						})
+						if okUses {
+							return true
+						}
+					}
+				}
 				msg = "a " + T.Obj().Name() + " is built at " + p.Pos(cl.Pos()) + " other than as a call argument (its callbacks may run outside the critical section)"
 			} else if !locksHeldAtNode(p, g, cl)[lockF] {
 				msg = "a " + T.Obj().Name() + " is handed out at " + p.Pos(cl.Pos()) + " without " + objName(lockF) + " held; its callback touches the protected state"
